@@ -23,6 +23,40 @@ import z3
 from .values import *   # noqa: F401,F403
 
 
+def local_names(node):
+    """names bound in a function body (its parameters aside): they are locals of the whole body"""
+    r = getattr(node, "_vsx_locals", None)
+    if r is None:
+        r = set()
+        declared = set()
+        if not isinstance(node, ast.Lambda):
+            stack = list(node.body)
+            while stack:
+                n = stack.pop()
+                if isinstance(n, (ast.FunctionDef, ast.AsyncFunctionDef, ast.ClassDef)):
+                    r.add(n.name)
+                    continue
+                if isinstance(n, ast.Lambda):
+                    continue
+                if isinstance(n, (ast.ListComp, ast.SetComp, ast.DictComp, ast.GeneratorExp)):
+                    # comprehension targets live in their own scope; walrus targets inside do leak, but are rare
+                    stack.append(n.generators[0].iter)
+                    continue
+                if isinstance(n, (ast.Global, ast.Nonlocal)):
+                    declared.update(n.names)
+                elif isinstance(n, ast.Name) and isinstance(n.ctx, (ast.Store, ast.Del)):
+                    r.add(n.id)
+                elif isinstance(n, (ast.Import, ast.ImportFrom)):
+                    for a in n.names:
+                        r.add((a.asname or a.name).split(".")[0])
+                elif isinstance(n, ast.ExceptHandler) and n.name:
+                    r.add(n.name)
+                stack.extend(ast.iter_child_nodes(n))
+        r -= declared
+        node._vsx_locals = r
+    return r
+
+
 def is_generator(node):
     """does this function body contain a yield of its own (not one of a nested function)?"""
     r = getattr(node, "_vsx_is_gen", None)
@@ -1050,6 +1084,19 @@ class Engine:
         fr = self.frame
         if fr.globals_declared and name in fr.globals_declared and name in fr.globs:
             return fr.globs[name]
+        if fr.func is not None and name in local_names(fr.func.node) \
+                and not (fr.globals_declared and name in fr.globals_declared) and not (fr.nonlocals_declared and name in fr.nonlocals_declared):
+            # a name assigned somewhere in the function is local throughout it (no fall-back to enclosing scopes);
+            # comprehension frames of the same function are part of it
+            f = fr
+            found = False
+            while f is not None and f.func is fr.func:
+                if name in f.locals:
+                    found = True
+                    break
+                f = f.closure
+            if not found:
+                self.throw("UnboundLocalError", f"cannot access local variable '{name}' where it is not associated with a value")
         f = fr
         while f is not None:
             if name in f.locals:
